@@ -141,6 +141,20 @@ def _c04_proxy_misfile(f: Failure) -> bool:
     return False
 
 
+@finding("C04", "tls-read-error-retried-as-other")
+def _c04_tls_misfile(f: Failure) -> bool:
+    """A TLS-level failure while the response is awaited (request already written) becomes urllib3's SSLError before the
+    read-error test and is charged to 'other': retried although read=0, and a non-idempotent request is sent again."""
+    o = f["observed"] or {}
+    if o.get("explained_by_tls_misfiled_reads") is not True:
+        return False
+    if f["kind"] == "non-idempotent-resent":
+        return o.get("after") == "read" and o.get("after_detail") == "ssl"
+    if f["kind"] == "category-budget-exceeded":
+        return o.get("category") == "read"
+    return False
+
+
 @finding("C04", "retry-after-honoured-for-any-retried-status")
 def _c04_retry_after_any_status(f: Failure) -> bool:
     """sleep() honours Retry-After of whatever response caused the retry, e.g. a forcelisted 500 with
@@ -188,6 +202,21 @@ def _c03_released_unread_collected(f: Failure) -> bool:
     )
 
 
+@finding("C03", "early-released-response-closed-connection-reused")
+def _c03_early_released_closed(f: Failure) -> bool:
+    """release_conn=True with preload_content=False puts the connection back into the pool before the body is read; the
+    response then has no reference to it, so close() or a failed read can only close http.client's response object -
+    which removes the ResponseNotReady guard - and the pooled connection, with the rest of the body still to come, is
+    handed to the next request."""
+    o = f["observed"] or {}
+    p = o.get("prev_on_conn") or {}
+    return (
+        f["kind"] in ("answered-on-unclean-connection", "foreign-bytes-delivered", "foreign-status-delivered")
+        and p.get("caller") in ("early-close", "early-read")
+        and p.get("unclean_before") is True
+    )
+
+
 # ---------------------------------------------------------------------------------- C07 -------
 @finding("C07", "cert-reqs-override-rewrites-shared-caller-context")
 def _c07_shared_context(f: Failure) -> bool:
@@ -196,6 +225,32 @@ def _c07_shared_context(f: Failure) -> bool:
     never asked for it."""
     o = f["observed"] or {}
     return f["kind"] == "request-sent-over-unverified-connection" and o.get("shared_caller_context_after_lax_cert_reqs") is True and o.get("route") == "manager-after-lax" and (o.get("det") or {}).get("mode") != "CERT_NONE"
+
+
+# ---------------------------------------------------------------------------------- C09 -------
+@finding("C09", "non-http-connect-reply-surfaces-as-protocolerror")
+def _c09_garbage_connect_reply(f: Failure) -> bool:
+    """A proxy that answers CONNECT with bytes that are no status line (or closes without a word) makes http.client raise
+    BadStatusLine / RemoteDisconnected without closing the connection; urllib3 has already marked the proxy as reached,
+    so the failure is labelled ProtocolError('Connection aborted.') - the label for origin failures - not ProxyError."""
+    o = f["observed"] or {}
+    return f["kind"] == "refused-connect-class" and o.get("not_a_status_line") is True and o.get("reply") in ("garbage", "eof") and o.get("inner") == "ProtocolError"
+
+
+@finding("C09", "https-destination-equal-to-https-proxy-shares-forwarding-pool")
+def _c09_destination_is_proxy(f: Failure) -> bool:
+    """An https:// destination whose host:port is the https proxy's own gets the same pool key as the pool that forwards
+    plain-http traffic to that proxy: whichever kind of connection is pooled first serves both."""
+    c = f["case"]
+    if c.get("proxy_scheme") != "https" or c.get("forwarding"):
+        return False
+    form = str(c.get("proxy_url_form", "")).lower()
+    phost, _, pport = form.partition(":")
+    proxy_auth = (phost, int(pport) if pport else 443)
+    reqs = c.get("reqs") or []
+    to_proxy = [r for r in reqs if r["scheme"] == "https" and (str(r["host"]).lower(), r["port"] or 443) == proxy_auth]
+    forwarded = [r for r in reqs if r["scheme"] == "http"]
+    return bool(to_proxy) and bool(forwarded) and f["kind"] in ("origin-form-to-proxy", "proxy-header-inside-tunnel", "not-origin-form-in-tunnel")
 
 
 # ---------------------------------------------------------------------------------- C15 -------
